@@ -20,7 +20,7 @@ ASSUMPTIONS = [
     "random draws of the error model are solver variables: Generator.random() in [0,1), Generator.normal() any real in [-3,3] (a sound subset is enough to exercise the resampling loop), derived sub-seeds are deterministic functions of (seed, k)",
 ]
 BOUNDS = {
-    "quick": "bs_matrix unitary for all theta, phi on n<=4; end to end: every 2x2 unitary (three symbolic angles), all monomial matrices P.diag(e^{i alpha_j}) for every permutation P with N<=3 and symbolic phases (identity and permutations included: the exactly-zero-entry region), block-diagonal 1 (+) U(2); heralded originals; error model: TopHat/Constant/Gaussian value ranges with symbolic bounds (Gaussian loop unrolled 4), noisy mapping still unitary with U a sub-block, same seed same circuit",
+    "quick": "bs_matrix unitary for all theta, phi on n<=4; end to end: every 2x2 unitary (three symbolic angles), all monomial matrices P.diag(e^{i alpha_j}) for every permutation P with N<=3 and symbolic phases (identity and permutations included: the exactly-zero-entry region), block-diagonal 1 (+) U(2); heralded originals; error model: TopHat/Constant/Gaussian value ranges with symbolic bounds (Gaussian loop unrolled 4), noisy mapping still unitary with U a sub-block, same seed same circuit; a default-built Reck stays ideal after the error model of another default-built Reck was configured",
     "thorough": "monomial matrices for N = 4",
 }
 OUTSIDE = "symbolic (randomly drawn) phase offsets: phase arithmetic modulo 2 pi on a symbolic real is not modelled, phase offsets are exercised as constants; dense unitaries of size >= 3 end to end (nested radicals beyond the solver's reach; covered only through bs_matrix unitarity, the N=2 case and the loop-index structure exercised by the monomial family); Gaussian resampling beyond 4 iterations; float rounding"
@@ -207,6 +207,36 @@ def h_noisy_mapping(ctx, which, seed=9):
             ctx.check(ctx.ge(comp.loss, 0) and ctx.le(comp.loss, f(1, 10)), "noisy:drawn-loss-within-declared-bounds")
 
 
+def h_default_model_isolated(ctx, herald):
+    """noise enters only through the error model an interferometer was given: configuring the model of one
+    default-built Reck (a public, mutable attribute) leaves every other default-built Reck ideal"""
+    from symx import stubs
+    lw = ctx.lw
+    itf = lw.interferometers
+    f = ctx.m.frac
+    first = itf.Reck()
+    first.error_model.loss = itf.dists.TopHat(f(1, 10), f(1, 5))
+    first.error_model.bs_reflectivity = itf.dists.TopHat(f(2, 5), f(3, 5))
+    c = lw.Circuit(2)
+    c.mode_swaps({0: 1, 1: 0})
+    c.ps(0, ctx.angle("a"))
+    if herald:
+        c.herald(0, 1)
+    w = _install(ctx)
+    try:
+        first.map(c, seed=4)
+        # a second interferometer built with the default (and one built with an explicit None)
+        for k, other in enumerate((itf.Reck(), itf.Reck(None))):
+            ctx.check(other.error_model is not first.error_model, "default-model:each-interferometer-has-its-own-error-model")
+            mapped = other.map(c, seed=4)
+            ctx.check(mapped.U_full.shape == c.U_full.shape, "default-model:no-loss-modes-with-the-default-model")
+            if mapped.U_full.shape == c.U_full.shape:
+                ctx.check_eq(mapped.U_full, c.U_full, "default-model:mapped-unitary-equals-original")
+            ctx.check(mapped.heralds == c.heralds, "default-model:heralds-kept")
+    finally:
+        stubs.uninstall(ctx.symbolic)
+
+
 def xh_conditions(tier):
     # float behaviour of the phase reduction (outside the real-arithmetic model of symx)
     t = 240 if tier == "quick" else 480
@@ -226,5 +256,6 @@ def harnesses(tier):
         ("monomial", h_monomial, mono),
         ("block-diagonal", h_block, [dict()], dict(check_timeout_ms=12000, max_seconds=900)),
         ("dist-ranges", h_dist_ranges, [dict(kind=k) for k in ("tophat", "constant")] + [dict(kind="gaussian", bounds=b) for b in ("both", "min", "max", "none")]),
+        ("default-model-isolated", h_default_model_isolated, [dict(herald=False), dict(herald=True)], dict(check_timeout_ms=60000)),
         ("noisy-mapping", h_noisy_mapping, [dict(which=w, seed=sd) for w in ("tophat", "gaussian") for sd in (9, 0)], dict(check_timeout_ms=60000)),
     ]
